@@ -55,6 +55,7 @@ type Engine struct {
 	globalsInit   map[string][]*Term
 	recDepth      int
 	debugQ        bool
+	ghostDecls    map[string]*Sort
 	debugN        int
 	litCache      map[string][]literalRow
 	pkgOfFile     map[*ContractFile]string
@@ -148,6 +149,12 @@ func (E *Engine) AddContractFile(cf *ContractFile, pkgPath string) {
 	}
 	for k, v := range cf.Consts {
 		E.consts[k] = v
+	}
+	for k, v := range cf.GhostVars {
+		if E.ghostDecls == nil {
+			E.ghostDecls = map[string]*Sort{}
+		}
+		E.ghostDecls[k] = sortOfSpecType(v)
 	}
 }
 
@@ -761,6 +768,9 @@ func (E *Engine) VerifyFunction(fn *ssa.Function, fc *FuncContract) {
 	mkRet = func(fr *Frame) func(st2 *State, res []Val) {
 		return func(st2 *State, res []Val) {
 			penv := &Env{x: x, st: st2, old: fr.entry, vars: map[string]Val{}, pkgPath: fnPkgPath(fn), fc: fc}
+			if len(fn.FreeVars) > 0 {
+				penv.fr = fr // captured variables are named in closure contracts
+			}
 			for n, v := range fr.params {
 				penv.vars[n] = v
 			}
